@@ -82,7 +82,7 @@ CLAIMED = {
              'callFn). Correspondence under ASan+LeakSanitizer+UBSan+TROMPELOEIL_SANITY_CHECKS: random permutations of destruction/move '
              'operations over populations of mocks/expectations/sequences/monitors/watched/tracers interleaved with calls and queries; a '
              'sanitizer abort is a violation. Partial: memory safety is proved for the reference structure of the model; that the C++ keeps no '
-             'other pointers is observed by the sanitizers on the explored histories. Re-entrant calls keep every invariant (reentrant_reachable, reentrant_WF). Second tie (translator): ~sequence_type (pending and retired handles detached), sequence_matcher::detach regenerated from /repo\'s current source by tools/cxx2lean.py on every run and proved equal to the model definitions (seq_dtor_eq, handle_detach_order). Layer below the lists (Props/C14_Ring.lean): the intrusive ring itself - list_elem<T>::unlink / ~list_elem / operator=(list_elem&&) / is_linked and list<T,Disposer>::push_front / push_back / begin / end / iterator++ / ~list - is modelled as a heap of next/prev pointers (Model/Ring.lean); for EVERY legal script of ring operations, any number of rings side by side, the heap represents the abstract lists (ring_refines_lists: invariant Rep by induction over the script), iterators see exactly the list forwards and backwards (iteration_is_list), is_linked is membership (isLinked_iff_member), after unlink no other address holds a pointer to the removed element (unlinked_unreferenced), ~list_elem of an unlinked element writes nothing (dtor_of_unlinked_is_noop), list(list&&) transfers the elements in order and leaves the source empty and every other list untouched (move_transfers_ring). Tie: the ten member functions are regenerated from /repo on every run (while loops with explicit fuel) and proved equal to the model operations (Tie/Ring.lean), and harness/ring/h_ring.cpp runs the real ring (ASan+UBSan+SANITY_CHECKS) against `tmodel ring` on systematic and random legal scripts, comparing both traversal directions, empty() and is_linked() after every operation. The caller obligations (an element is pushed only while on no list) follow from well-formedness of the resulting list family (push_legal_of_wf_post, move_legal_of_wf_post), which is what the World invariant WF states after every operation - proved: absWf_of_WF / reachable_lists_wellformed (Props/C14_WorldRing.lean: the mock-function lists of every reachable world, read as a ring family over structured addresses, are well formed) and step_between_reachable_is_legal. For EVERY history of World operations the pointer heap produced by the library's ring scripts represents the World's lists: heap_refines_world (mock-function lists, Props/C14_HeapRefines.lean: step_heap for all 24 operations) and seq_heap_refines_world (the sequences' pending lists, Props/C14_SeqHeapRefines.lean), by induction over the history. Each World operation is carried down to the pointers as a worked instance (expect_heap, release_heap, saturating_call_heap, kill_heap, move_heap; for the sequence lists register_heap, retire_heap, skip_heap, expect_seq_heap, release_seq_heap, accepted_call_seq_heap - Props/C14_WorldRing.lean, Props/C14_SeqRing.lean), and which ring operations the C++ issues is read off the regenerated translations of run_actions, lifetime_monitor::notify, decommission and ~expectations and proved to be those scripts (Tie/RingScripts.lean: run_actions_heap, run_actions_seq_heap, notify_seq_heap, kill_heap_from_cxx); the retired ring of a sequence and the compiler-generated move constructor remain by inspection and sanitizer observation.',
+             'other pointers is observed by the sanitizers on the explored histories. Re-entrant calls keep every invariant (reentrant_reachable, reentrant_WF). Second tie (translator): ~sequence_type (pending and retired handles detached), sequence_matcher::detach regenerated from /repo\'s current source by tools/cxx2lean.py on every run and proved equal to the model definitions (seq_dtor_eq, handle_detach_order). Layer below the lists (Props/C14_Ring.lean): the intrusive ring itself - list_elem<T>::unlink / ~list_elem / operator=(list_elem&&) / is_linked and list<T,Disposer>::push_front / push_back / begin / end / iterator++ / ~list - is modelled as a heap of next/prev pointers (Model/Ring.lean); for EVERY legal script of ring operations, any number of rings side by side, the heap represents the abstract lists (ring_refines_lists: invariant Rep by induction over the script), iterators see exactly the list forwards and backwards (iteration_is_list), is_linked is membership (isLinked_iff_member), after unlink no other address holds a pointer to the removed element (unlinked_unreferenced), ~list_elem of an unlinked element writes nothing (dtor_of_unlinked_is_noop), list(list&&) transfers the elements in order and leaves the source empty and every other list untouched (move_transfers_ring). Tie: the ten member functions are regenerated from /repo on every run (while loops with explicit fuel) and proved equal to the model operations (Tie/Ring.lean), and harness/ring/h_ring.cpp runs the real ring (ASan+UBSan+SANITY_CHECKS) against `tmodel ring` on systematic and random legal scripts, comparing both traversal directions, empty() and is_linked() after every operation. The caller obligations (an element is pushed only while on no list) follow from well-formedness of the resulting list family (push_legal_of_wf_post, move_legal_of_wf_post), which is what the World invariant WF states after every operation - proved: absWf_of_WF / reachable_lists_wellformed (Props/C14_WorldRing.lean: the mock-function lists of every reachable world, read as a ring family over structured addresses, are well formed) and step_between_reachable_is_legal. For EVERY history of World operations the pointer heap produced by the ring scripts of the library represents the lists of the World: heap_refines_world (mock-function lists, Props/C14_HeapRefines.lean: step_heap for all 24 operations) and seq_heap_refines_world (the pending lists of the sequences, Props/C14_SeqHeapRefines.lean), by induction over the history. Each World operation is carried down to the pointers as a worked instance (expect_heap, release_heap, saturating_call_heap, kill_heap, move_heap; for the sequence lists register_heap, retire_heap, skip_heap, expect_seq_heap, release_seq_heap, accepted_call_seq_heap - Props/C14_WorldRing.lean, Props/C14_SeqRing.lean), and which ring operations the C++ issues is read off the regenerated translations of run_actions, lifetime_monitor::notify, decommission and ~expectations and proved to be those scripts (Tie/RingScripts.lean: run_actions_heap, run_actions_seq_heap, notify_seq_heap, kill_heap_from_cxx); the retired ring of a sequence and the compiler-generated move constructor remain by inspection and sanitizer observation.',
         ref='DESIGN.md §4 C14, §14', technique='Lean 4 proof (invariant by induction over all operations; simulation for move; heap-level refinement of the intrusive ring to lists) + sanitizer-instrumented model/implementation correspondence'),
     'C15': dict(
         text='Theorems: every report of a call is fatal, every report of any other operation non-fatal (call_reports_fatal, '
